@@ -472,7 +472,9 @@ def finish(
         "known_findings_reported": len(set(known_lines)),
     }
     EVIDENCE_DIR.mkdir(exist_ok=True)
-    (EVIDENCE_DIR / f"{pid}.json").write_text(json.dumps(ev, indent=1, default=str) + "\n")
+    # a debugging run without the Lean build/audit (--no-lean) must never replace the real evidence
+    target = EVIDENCE_DIR / f"{pid}.json" if audit is not None else EVIDENCE_DIR / f"{pid}.nolean.json"
+    target.write_text(json.dumps(ev, indent=1, default=str) + "\n")
     print(
         f"[{pid}] tier={tier} seed={seed} evaluations={res.evaluations} distinct_nontrivial={len(res.nontrivial_keys)} "
         f"obligations={audit.obligations if audit else 0} discharged={audit.discharged if audit else 0} "
